@@ -163,6 +163,10 @@ MarkAns(c) == IF c \in Calls /\ ansAt[c] = <<>> THEN ansAt' = [ansAt EXCEPT ![c]
 TServer == LET k == E.c  g == E.g IN
   \* tcp.authentificationNonce (authenticated connections): consumed inside Connection.reader, first or repeated - no effect on the model
   CASE K = "srv.authnonce" -> NoOp /\ Same(aux)
+    \* the server has read the handshake of a connection attempt and holds its acknowledgement back for E.ms: the recovery takes that much longer
+    [] K = "srv.stall" -> /\ NoOp /\ k \in Conns
+                          /\ recBy' = [recBy EXCEPT ![k] = IF @ = Inf THEN Inf ELSE @ + E.ms]
+                          /\ UNCHANGED <<ncalls, tmo, t0, dlvAt, ansAt, trying, early, clun, indlv, crun, sending, refused>>
     [] K = "srv.hsdrop" -> /\ NoOp /\ refused' = refused + 1
                            /\ UNCHANGED <<ncalls, tmo, t0, dlvAt, ansAt, trying, early, clun, indlv, recBy, crun, sending>>
     [] K = "srv.up"   -> k \in Conns /\ g = gen[k] + 1 /\ DialOk(k) /\ Same(aux)
@@ -186,7 +190,7 @@ TServer == LET k == E.c  g == E.g IN
                                    /\ recBy' = [recBy EXCEPT ![k] = Min2(@, T + RecoverMs)]
                               ELSE NoOp /\ UNCHANGED recBy
                          /\ UNCHANGED <<ncalls, tmo, t0, dlvAt, ansAt, trying, early, clun, indlv, crun, sending, refused>>
-ServerKinds == {"srv.authnonce", "srv.hsdrop", "srv.up", "srv.recv", "srv.ans", "srv.dup", "srv.unk", "srv.other", "srv.pong", "srv.drop"}
+ServerKinds == {"srv.authnonce", "srv.stall", "srv.hsdrop", "srv.up", "srv.recv", "srv.ans", "srv.dup", "srv.unk", "srv.other", "srv.pong", "srv.drop"}
 
 \* -------------------------------------------------- generation g of connection c
 PktMatches(p) == IF E.ty = "ans" THEN p.t = "ans" /\ p.id = E.i /\ p.v = E.h
@@ -275,6 +279,12 @@ Silent ==
      \/ /\ K = "Quiesce" /\ \E k \in Conns : \E g \in Gens(k) : PktStuck(k, g)
         /\ Same(aux)
      \* P logs its exit: it has handed over everything it parsed, so R has taken the last packet even if R's hook comes later
+     \* the goroutines of a new socket are started a moment before the hook that reports its installation (in the same critical
+     \* section of mu; on authenticated connections before the authentication exchange): they may be seen at work first
+     \/ /\ K \in ReaderKinds /\ OnLink /\ E.g = gen[E.c] + 1 /\ L(E.c, E.g).p = "new"
+        /\ SetL(E.c, E.g, [L(E.c, E.g) EXCEPT !.p = "run", !.r = "run"])
+        /\ UNCHANGED <<callVars, status, gen, clr, rcq, dial, produced, drops, noise, sil>>
+        /\ Same(aux)
      \/ /\ K = "pkt.exit" /\ OnLink /\ Len(L(E.c, E.g).in) = 1 /\ ~Pending(E.c, E.g)
         /\ crun' = [crun EXCEPT ![E.c] = (E.g :> Head(L(E.c, E.g).in)) @@ @]
         /\ ConnReaderRecv(E.c, E.g)
